@@ -4927,7 +4927,15 @@ XPath::NodeTester::initialize(
                 }
                 else
                 {
-                    theScratchString.assign(theNameTest, theIndex + 1, theLength - theIndex - 1);
+                    // (there may be nothing after the colon)
+                    if (theIndex + 1 == theLength)
+                    {
+                        theScratchString.clear();
+                    }
+                    else
+                    {
+                        theScratchString.assign(theNameTest, theIndex + 1, theLength - theIndex - 1);
+                    }
 
                     if (XalanQName::isValidNCName(theScratchString) == false)
                     {
